@@ -495,6 +495,9 @@ class Exec:
         while work:
             s = work.pop()
             if len(self.done) + len(work) > self.max_paths: raise Unsupported('path budget exceeded')
+            if s.status != 'run':
+                if s.status not in ('infeasible', 'split'): self.done.append(s)
+                continue
             try:
                 more = self.step_until_fork(s)
                 work.extend(more)
@@ -840,7 +843,13 @@ class Exec:
                     vals.append((recvvals[0] if (recvvals is not None and j == idx) else self.zero(tt[2 + k])) if 2 + k < len(tt) else None); k += 1
             s.frames[-1].regs[reg] = tuple(vals[:len(tt)]) if tt else tuple(vals)
         out = []; cur = st
-        for i, sd in enumerate(states):
+        def is_timer(sd):
+            try:
+                c = self.chan_cell(st, self.val(st, fr, sd['chan'])); return c is not None and c.get('tick') is not None
+            except Exception: return False
+        order = sorted(range(len(states)), key=lambda j: 0 if is_timer(states[j]) else 1)     # a timer may win the race against a ready channel
+        for i in order:
+            sd = states[i]
             ch = self.val(cur, fr if cur is st else cur.frames[-1], sd['chan'])
             cell = self.chan_cell(cur, ch)
             if sd['dir'] == 1:      # send
@@ -857,6 +866,14 @@ class Exec:
                     cur.status = 'infeasible'; return out
                 cur.pc.append(z3.Not(room))
             else:                   # receive
+                if cell is not None and cell.get('tick') is not None:
+                    # timer channel (time.After): may fire before the other operations complete (symbolic)
+                    tick = cell['tick']
+                    if self.feasible(cur.pc, tick):
+                        s2 = cur.fork(); s2.pc.append(tick); c2 = self.chan_cell(s2, ch); c2['tick'] = None
+                        result(s2, i, [self.zero(tt[2 + sum(1 for sd2 in states[:i] if sd2['dir'] == 2)]) if len(tt) > 2 else None]); out.append(s2)
+                    if not self.feasible(cur.pc, z3.Not(tick)): cur.status = 'infeasible'; return out
+                    cur.pc.append(z3.Not(tick)); continue
                 if cell is not None and cell['chan']:
                     v = cell['chan'].pop(0); result(cur, i, [v]); return (out + [cur]) if out else None
         if not blocking:
